@@ -33,7 +33,8 @@ REGISTRY = dict(
           "for tau in [0,1], strict zip, an update leaves the online parameters untouched and optimizer steps leave the target untouched (event model); update-time sets for every run: DQN at vectorised "
           "steps that are multiples of max(tui // n_envs, 1) (= tui env steps when n_envs divides tui), TD3/DDPG at global gradient steps that are multiples of policy_delay whatever the grouping into "
           "train() calls, SAC inside one train() call at loop indices that are multiples of tui; at an update instant every target parameter gets polyak(configured tau) and every target running statistic is copied "
-          "(regenerated tau arguments of both polyak_update calls per algorithm), nothing writes the targets in between. Tie: the three cadence conditions and the polyak factors are regenerated on every run + instrumented real runs. "
+          "(regenerated tau arguments of both polyak_update calls per algorithm), nothing writes the targets in between; composed with the learn-loop model of C12: closed forms for the number of rollouts, "
+          "train() calls and target updates of a whole off-policy learn() call (DQN in env steps, TD3/DDPG global counter, SAC = calls x ceil(g/interval)). Tie: the three cadence conditions and the polyak factors are regenerated on every run + instrumented real runs. "
           "PARTIAL: 'no optimizer touches a target parameter' is a runtime monitor (tensor snapshots around every optimizer.step, parameter identity), not a theorem."),
     note=("Trusted: Coq 8.16.1 kernel (vm_compute, no native_compute), translate/py2coq.py + specs/polyak.py, harness/c08.py, Python/numpy/torch. "
           "Not verified: torch in-place kernels mul_/add(alpha) and float32 rounding (exact dyadic stream + tolerance 1e-6 stream), autograd, the off-policy learn loop that decides the train() calls "
@@ -43,7 +44,7 @@ REGISTRY = dict(
 )
 
 HEADER = """From Coq Require Import List ZArith QArith Bool.
-From SB3V Require Import Lib.QUtil Model.Polyak Model.Cadence.
+From SB3V Require Import Lib.QUtil Model.Polyak Model.Cadence Model.LearnLoop Model.LearnCadence.
 Import ListNotations.
 """
 
@@ -414,6 +415,31 @@ def model_expr(cfg, flags, gs):
     return f"td3_calls {coq_Z(delay)} 0%Z {coq_list(gs, coq_nat)}"
 
 
+def closed_form_expr(cfg):
+    """(rollouts, train() calls, gradient steps per call, target updates) of the whole learn() call from the closed forms of
+    Model.LearnCadence (train_freq in steps only)"""
+    f, n = cfg["train_freq"], cfg["n_envs"]
+    R = f * n
+    upd = {"DQN": f"dqn_updates {coq_Z(cfg['tui'])} {coq_Z(n)} {coq_Z(f)} 0%Z NR",
+           "SAC": f"sac_updates {coq_Z(cfg['tui'])} g T",
+           "TD3": f"td3_updates {coq_Z(cfg['policy_delay'])} 0%Z g T",
+           "DDPG": "td3_updates 1%Z 0%Z g T"}[cfg["algo"]]
+    return (f"let R := {coq_Z(R)} in let NR := n_rollouts R {coq_Z(cfg['total'])} 0%Z in "
+            f"let g := grad_steps {coq_Z(cfg['gradient_steps'])} R in "
+            f"let T := (if Z.ltb 0 g then n_trains R {coq_Z(cfg['learning_starts'])} 0%Z NR else 0%nat) in (Z.of_nat NR, Z.of_nat T, g, {upd})")
+
+
+def check_closed_form(cfg, impl, flags, gs, mv):
+    n_cb = sum(1 for e in impl["events"] if e[0] == "cb")
+    mNR, mT, mg, mupd = mv
+    got = (n_cb // cfg["train_freq"], len(gs), sorted(set(gs)), sum(flags))
+    want_g = [mg] if mT > 0 else []
+    if got != (mNR, mT, want_g, mupd) or n_cb % cfg["train_freq"]:
+        return [("learn-call-closed-form", f"{cfg['algo']}: observed (rollouts, train() calls, gradient steps per call, target updates) = {got} over {n_cb} vectorised steps; "
+                                           f"closed form = {(mNR, mT, want_g, mupd)}")]
+    return []
+
+
 def oracle_run(cfg, impl, flags, gs, actor, structural):
     probs = [("oracle-" + ("polyak-rule" if "polyak" in p or "running" in p else "update-structure"), p) for p in structural]
     for p in impl["problems"]:
@@ -474,6 +500,8 @@ def run_all(chk, pcases, runs):
         if d is not None:
             ridx.append(len(exprs))
             exprs.append(model_expr(cfg, d[0], d[1]))
+            if cfg["train_freq"] != "episode":
+                exprs.append(closed_form_expr(cfg))
         else:
             ridx.append(None)
     vals = common.coq_eval_many("C08", HEADER, exprs, shard=60, procs=4)
@@ -481,7 +509,7 @@ def run_all(chk, pcases, runs):
 
 
 def main():
-    chk = Check("C08", groups=["polyak"])
+    chk = Check("C08", groups=["polyak", "learnloop"])
     chk.build_props()
     quick = chk.tier == "quick"
     n_p, n_r = (200, 60) if quick else (4000, 600)
@@ -502,7 +530,7 @@ def main():
                           "correspondence": "harness/c08.py run_polyak vs Model.Polyak.polyak_list"}, found_input=False)
             new += 1
     # (b)
-    hist = {"algo": {}, "n_envs": {}, "gradient_steps": {}, "bn": 0, "updates": 0, "units": 0, "train_calls": 0, "f9_runs": 0}
+    hist = {"algo": {}, "n_envs": {}, "gradient_steps": {}, "bn": 0, "updates": 0, "units": 0, "train_calls": 0, "f9_runs": 0, "closed_form_checked": 0}
     distinct = set()
     for cfg, im, d, ri in zip(runs, rimpls, derived, ridx):
         hist["algo"][cfg["algo"]] = hist["algo"].get(cfg["algo"], 0) + 1
@@ -519,6 +547,7 @@ def main():
         if sum(flags) >= 2 and not all(flags):
             distinct.add((cfg["algo"], cfg["n_envs"], cfg["tui"], cfg["policy_delay"], cfg["gradient_steps"], str(cfg["train_freq"])))
         orc = oracle_run(cfg, im, flags, gs, actor, structural)
+        hist["closed_form_checked"] += int(cfg["train_freq"] != "episode")
         mflags = list(vals[ri])
         f9 = [p for p in orc if p[0] == KNOWN_F9]
         other = [p for p in orc if p[0] != KNOWN_F9]
@@ -528,6 +557,11 @@ def main():
                 chk.violation(KNOWN_F9, f9[0][1], {"run": cfg, "flags": flags, "train_calls": gs}, found_input=True)
         if other and new < 3:
             chk.violation(other[0][0], "; ".join(m for _, m in other[:3]), {"run": cfg, "problems": other[:10], "flags": flags, "model_flags": mflags, "train_calls": gs}, found_input=True)
+            new += 1
+        elif cfg["train_freq"] != "episode" and check_closed_form(cfg, im, flags, gs, vals[ri + 1]) and new < 3:
+            cf = check_closed_form(cfg, im, flags, gs, vals[ri + 1])
+            chk.violation("model-correspondence-" + cf[0][0], cf[0][1], {"run": cfg, "flags": flags, "train_calls": gs,
+                          "correspondence": "harness/c08.py instrumented run vs Model.LearnCadence closed forms"}, found_input=False)
             new += 1
         elif mflags != flags and new < 3:
             chk.violation("model-correspondence-cadence", f"{cfg['algo']}: update flags impl {flags} model {mflags}",
@@ -555,7 +589,7 @@ def main():
 
 def replay(path):
     d = json.load(open(path))["replay"]
-    chk = Check("C08", groups=["polyak"])
+    chk = Check("C08", groups=["polyak", "learnloop"])
     if "run" in d:
         cfg = d["run"]
         im = run_algo(cfg)
